@@ -6,6 +6,8 @@
 mod conv;
 mod r#gen;
 mod lin;
+mod lp;
+mod simplex;
 mod bounds;
 
 use serde_json::Value;
@@ -78,6 +80,24 @@ fn main() {
                 for ev in evs {
                     writeln!(out, "{}", ev).unwrap();
                 }
+            }
+        }
+        // simplex --cases F : direct tableau cases, three driving modes (C14)
+        "simplex" => {
+            let cases = read_cases(&arg(&args, "--cases").expect("--cases"));
+            for c in &cases {
+                let mut evs = vec![];
+                simplex::tableau_events(c, &mut evs);
+                for ev in evs {
+                    writeln!(out, "{}", ev).unwrap();
+                }
+            }
+        }
+        // std --cases F : into_standard_form events (C13)
+        "std" => {
+            let cases = read_cases(&arg(&args, "--cases").expect("--cases"));
+            for c in &cases {
+                writeln!(out, "{}", lp::std_event(c)).unwrap();
             }
         }
         _ => {
